@@ -45,6 +45,11 @@ type entity struct {
 	touchedBy string
 	lastOp    string
 	children  int
+	// the paired read the reference model expects (PairTo / UnPair are mirrored pointer for pointer)
+	mate *entity
+	// inherited: a derived object that came out already linked to a mate although the model gives it
+	// none. The link itself is not judged; what is done through it is (UnPair, MateWrite).
+	inherited bool
 }
 
 type harnessBuf struct {
@@ -102,6 +107,9 @@ func (h *hist) add(o *obiseq.BioSequence, s *shadow, origin string, parent *enti
 	h.ents = append(h.ents, e)
 	h.live = append(h.live, e)
 	h.byPtr[o] = e
+	if parent != nil && o.PairedWith() != nil {
+		e.inherited = true
+	}
 	return e
 }
 
@@ -380,6 +388,13 @@ func (h *hist) compare() {
 	for _, e := range h.live {
 		h.evals++
 		d := diff(e.obj, e.sh, true)
+		var want *obiseq.BioSequence
+		if e.mate != nil {
+			want = e.mate.obj
+		}
+		if obs := e.obj.PairedWith(); obs != want && !(e.mate == nil && e.inherited) {
+			d = append(d, fMate)
+		}
 		if len(d) == 0 {
 			continue
 		}
@@ -859,6 +874,50 @@ func (h *hist) appendWith(a *entity, data, q []byte, how, qhow int) {
 	}
 }
 
+// opPair links two reads the way the paired readers do; the model mirrors the two pointer writes.
+func (h *hist) opPair(a, b *entity) {
+	h.note("PairTo #%d <-> #%d", a.id, b.id)
+	a.obj.PairTo(b.obj)
+	a.mate, b.mate = b, a
+	a.inherited, b.inherited = false, false
+	h.touch(a, "PairTo")
+	h.touch(b, "PairTo")
+}
+
+// opUnPair: the object and the mate it is linked to forget each other; nothing else does.
+func (h *hist) opUnPair(a *entity) {
+	h.note("UnPair #%d (model mate: %v, real mate: %v)", a.id, a.mate != nil, a.obj.PairedWith() != nil)
+	a.obj.UnPair()
+	if a.mate != nil {
+		a.mate.mate = nil
+		h.touch(a.mate, "UnPair")
+	}
+	a.mate = nil
+	a.inherited = false
+	h.touch(a, "UnPair")
+}
+
+// opMateWrite modifies whatever the object reaches through PairedWith(). The model only follows
+// when that is the object's own mate: a derived object reaching the mate of its source writes
+// into state it shares with the source.
+func (h *hist) opMateWrite(a *entity) {
+	m := a.obj.PairedWith()
+	if m == nil {
+		return
+	}
+	me := h.byPtr[m]
+	if me == nil || me.state != stLive {
+		return
+	}
+	h.note("write through PairedWith() of #%d -> #%d", a.id, me.id)
+	v := fmt.Sprintf("via-%d-step-%d", a.id, h.step)
+	m.SetAttribute("mate_note", v)
+	if a.mate == me {
+		me.sh.ann["mate_note"] = v
+		h.touch(me, "MateWrite")
+	}
+}
+
 // opGrow reserves room; nothing observable changes.
 func (h *hist) opGrow(a *entity) {
 	n := 1 + h.c.Rng.Intn(400)
@@ -932,7 +991,7 @@ func (h *hist) opScribble() {
 }
 
 var histOps = []string{"New", "Copy", "RC", "RC-inplace", "Sub", "SubCirc", "Join", "Join-inplace", "SetSequence", "SetQualities", "SetFeatures", "Attr", "Recycle", "Scribble", "Drop",
-	"NewEmpty", "Clear", "ClearQualities", "Append", "Grow"}
+	"NewEmpty", "Clear", "ClearQualities", "Append", "Grow", "Pair", "UnPair", "MateWrite"}
 
 // operations for which an empty (cleared / preallocated) object is preferred now and then:
 // what they do to a zero-length slice that has a capacity is the point
@@ -1034,6 +1093,14 @@ func (h *hist) doStep(op string) {
 		h.opAppend(a)
 	case "Grow":
 		h.opGrow(a)
+	case "Pair":
+		if b := h.pick(); b != nil && b != a {
+			h.opPair(a, b)
+		}
+	case "UnPair":
+		h.opUnPair(a)
+	case "MateWrite":
+		h.opMateWrite(a)
 	}
 	if a != nil && a.state == stLive && op != "Drop" {
 		a.lastOp = op
